@@ -89,7 +89,7 @@ def run(ctx, factor):
         if r[0] == "err" and status == "undefined" and all(m["name"].startswith("@") for m in macros) and r[1] == "ValueError" and ref not in msg:
             rep.violate("error-does-not-name-the-macro", case, "message naming " + ref, {"message": msg})
         rep.case(case, True, tags=["pos:" + pos, "status:" + status, "outcome:" + r[0]])
-        if rep.violations and factor > 1:
+        if rep.has_new() and factor > 1:
             return
 
 
